@@ -180,6 +180,65 @@ def run_history(chk, da, rng, hid):
         check_all(step)
 
 
+def out_where_family(chk, da):
+    """ufunc(..., out=x, where=m) with operands that are expressions (so the ufunc node is FUSED with its neighbours), masks that
+    broadcast through size-1 axes over several blocks of x, scalar masks and x itself among the inputs; a collection derived from x
+    before the call keeps its value, the source ndarray is untouched, x computes to NumPy's result of the same call"""
+    import random as _random
+    rng = _random.Random(f"C11-out-where-{chk.seed}")
+    for it in range(500 if chk.tier == "thorough" else 70):
+        rows, cols = rng.choice([4, 6]), rng.choice([3, 4])
+        an = np.arange(float(rows * cols)).reshape(rows, cols) % 7
+        bn = (np.arange(float(rows * cols)).reshape(rows, cols) * 3) % 5
+        xn = -np.arange(float(rows * cols)).reshape(rows, cols) - 100
+        src = xn.copy()
+        chunks = (progs.rand_chunks_for(rng, rows), progs.rand_chunks_for(rng, cols))
+        mask_kind = rng.choice(["row-broadcast", "col-broadcast", "full", "scalar-true", "1d-trailing", "expr-of-x"])
+        lhs = rng.choice(["a*2", "a", "a+b", "x", "x*2"])
+        rhs = rng.choice(["b", "b-1", "3.0", "x"])
+        desc = {"shape": (rows, cols), "chunks": chunks, "mask": mask_kind, "call": f"np.add({lhs}, {rhs}, out=x, where=<{mask_kind}>)"}
+        chk.count("out-where:" + mask_kind)
+        chk.case(("out-where", rows, cols, repr(chunks), mask_kind, lhs, rhs, it), nontrivial=True)
+        try:
+            with warnings.catch_warnings():
+                warnings.simplefilter("ignore")
+                a, b = da.from_array(an, chunks=chunks), da.from_array(bn, chunks=chunks)
+                x = da.from_array(src, chunks=chunks)
+                pat_r = np.array([[(j + it) % 2 == 0 for j in range(cols)]])
+                pat_c = np.array([[(i + it) % 3 != 0] for i in range(rows)])
+                mn, m = {"row-broadcast": (pat_r, da.from_array(pat_r, chunks=(1, chunks[1]))),
+                         "col-broadcast": (pat_c, da.from_array(pat_c, chunks=(chunks[0], 1))),
+                         "full": (pat_r & pat_c, da.from_array(pat_r & pat_c, chunks=chunks)),
+                         "scalar-true": (True, True),
+                         "1d-trailing": (pat_r[0], da.from_array(pat_r[0], chunks=(chunks[1],))),
+                         "expr-of-x": (xn < -105, x < -105)}[mask_kind]
+                env_np = {"a": an, "b": bn, "x": xn}
+                env_da = {"a": a, "b": b, "x": x}
+                ln, ld = eval(lhs, {}, env_np), eval(lhs, {}, env_da)
+                rn, rd = eval(rhs, {}, env_np), eval(rhs, {}, env_da)
+                before = x[1:]
+                want_before = xn[1:].copy()
+                want = xn.copy()
+                np.add(ln, rn, out=want, where=mn)
+                np.add(ld, rd, out=x, where=m)
+                got = np.asarray(x.compute(scheduler="sync"))
+                got_before = np.asarray(before.compute(scheduler="sync"))
+        except Exception as e:  # noqa: BLE001
+            chk.violation(f"ufunc with out= and where= raises {type(e).__name__}: {str(e)[:100]}", desc,
+                          signature={"class": "out-where-raises", "mask": mask_kind, "error": type(e).__name__})
+            continue
+        if not np.array_equal(got, want):
+            chk.violation("x after np.add(..., out=x, where=m) differs from NumPy's result of the same call",
+                          {**desc, "got": got.tolist(), "want": want.tolist()}, signature={"class": "out-where-value", "mask": mask_kind})
+        elif not np.array_equal(got_before, want_before):
+            chk.violation("a slice of x taken BEFORE the out= call changed", {**desc, "got": got_before.tolist(), "want": want_before.tolist()},
+                          signature={"class": "other-target-changed", "via": "out-where", "mask": mask_kind})
+        elif not np.array_equal(src, -np.arange(float(rows * cols)).reshape(rows, cols) - 100):
+            chk.violation("the source ndarray of x was modified by an out= call", desc, signature={"class": "source-modified", "via": "out-where"})
+        else:
+            chk.traces_validated += 1
+
+
 def key_mutation_family(chk, da):
     """an index array used in an assignment is itself updated in place afterwards: the assignment already made must not change"""
     import random as _random
@@ -240,6 +299,7 @@ def run(chk: Check):
     model_family(chk, da)
     fam_setitem_plan(chk, da)
     key_mutation_family(chk, da)
+    out_where_family(chk, da)
     n = 4000 if chk.tier == "thorough" else 400
     for hid in range(n):
         run_history(chk, da, chk.rng, hid)
